@@ -828,24 +828,58 @@ func (c *Ctx) commutativeWrites(l *mapLoop, callee *ssa.Function, i int, args []
 		if !ok || ev.Fn != callee {
 			return ""
 		}
+		// the same ladder as for a map update written in the loop body itself, with the
+		// callee's values read in terms of the arguments of this call
+		argOf := func(v ssa.Value) ssa.Value {
+			if kp, ok := v.(*ssa.Parameter); ok {
+				for j, pa := range callee.Params {
+					if pa == kp && j < len(args) {
+						return args[j]
+					}
+				}
+			}
+			return nil
+		}
+		iterKey := func(v ssa.Value) bool { a := argOf(v); return a != nil && l.isIterKey(a) }
+		var own func(v ssa.Value, d int) bool
+		own = func(v ssa.Value, d int) bool {
+			if d == 0 {
+				return false
+			}
+			if a := argOf(v); a != nil {
+				return l.own[a]
+			}
+			switch x := v.(type) {
+			case *ssa.Lookup:
+				// a slot of an outer map selected by the iteration key belongs to this iteration
+				return own(x.X, d-1) || iterKey(x.Index)
+			case *ssa.UnOp:
+				return x.Op == token.MUL && own(x.X, d-1)
+			case *ssa.FieldAddr:
+				return own(x.X, d-1)
+			case *ssa.Field:
+				return own(x.X, d-1)
+			case *ssa.Extract:
+				return own(x.Tuple, d-1)
+			case *ssa.IndexAddr:
+				return own(x.X, d-1)
+			}
+			return false
+		}
+		for _, a := range args {
+			if l.sameMap(a) {
+				return ""
+			}
+		}
 		switch {
 		case isNilOrConst(mu.Value) || zeroSized(mu.Value.Type()):
 			kinds["set insertion"] = true
-		default:
-			kp, ok := mu.Key.(*ssa.Parameter)
-			if !ok {
-				return ""
-			}
-			idx := -1
-			for j, pa := range callee.Params {
-				if pa == kp {
-					idx = j
-				}
-			}
-			if idx < 0 || idx >= len(args) || !l.isIterKey(args[idx]) {
-				return ""
-			}
+		case own(mu.Map, 8):
+			kinds["map update on a container selected by the iteration key / owned by the iteration value"] = true
+		case iterKey(mu.Key):
 			kinds["map update keyed by the iteration key passed as argument"] = true
+		default:
+			return ""
 		}
 	}
 	var ks []string
@@ -979,7 +1013,7 @@ func (c *Ctx) orderFreeUses(call *ssa.Call, f *ssa.Function) bool {
 			return false
 		}
 		switch staticName(com) {
-		case "golang.org/x/exp/slices.Contains", "slices.Contains":
+		case "golang.org/x/exp/slices.Contains", "slices.Contains", "golang.org/x/exp/slices.ContainsFunc", "slices.ContainsFunc":
 			continue
 		}
 		return false
